@@ -70,21 +70,13 @@ Lemma gdone_setgdone X v s : gdone X (setgdone X v s) = v. Proof. acc_solve. Qed
 Lemma gdone_setgdone_o X v s : gdone (other X) (setgdone X v s) = gdone (other X) s. Proof. acc_solve. Qed.
 Lemma gacc_setgdone w X v s : gacc w (setgdone X v s) = gacc w s. Proof. acc_solve. Qed.
 
-Ltac simp_s :=
-  unfold Sc, Pc in *;
-  repeat rewrite ?getp_setp, ?getp_setp_o, ?getp_setp_o', ?net_setp, ?getmq_setp, ?getmr_setp, ?getst_setp,
-                 ?gacc_setp, ?gdone_setp, ?ndonew_setp_o, ?completedw_setp_o, ?basew_setp_o,
-                 ?getp_setnet, ?net_setnet, ?getmq_setnet, ?getmr_setnet, ?getst_setnet, ?gacc_setnet, ?gdone_setnet,
-                 ?getp_setmq, ?net_setmq, ?getmq_setmq, ?getmq_setmq_o, ?getmq_setmq_o', ?getmr_setmq, ?getst_setmq,
-                 ?gacc_setmq, ?gdone_setmq,
-                 ?getp_setmr, ?net_setmr, ?getmr_setmr, ?getmr_setmr_o, ?getmr_setmr_o', ?getmq_setmr, ?getst_setmr,
-                 ?gacc_setmr, ?gdone_setmr,
-                 ?getp_setst, ?net_setst, ?getst_setst, ?getst_setst_o, ?getst_setst_o', ?getmq_setst, ?getmr_setst,
-                 ?gacc_setst, ?gdone_setst,
-                 ?getp_setgacc, ?net_setgacc, ?getmq_setgacc, ?getmr_setgacc, ?getst_setgacc, ?gacc_setgacc,
-                 ?gacc_setgacc_o, ?gdone_setgacc,
-                 ?getp_setgdone, ?net_setgdone, ?getmq_setgdone, ?getmr_setgdone, ?getst_setgdone, ?gdone_setgdone,
-                 ?gdone_setgdone_o, ?gacc_setgdone in *.
+#[export] Hint Rewrite getp_setnet net_setnet getmq_setnet getmr_setnet getst_setnet gacc_setnet gdone_setnet : bis.
+#[export] Hint Rewrite getp_setmq net_setmq getmq_setmq getmq_setmq_o getmq_setmq_o' getmr_setmq getst_setmq gacc_setmq gdone_setmq : bis.
+#[export] Hint Rewrite getp_setmr net_setmr getmr_setmr getmr_setmr_o getmr_setmr_o' getmq_setmr getst_setmr gacc_setmr gdone_setmr : bis.
+#[export] Hint Rewrite getp_setst net_setst getst_setst getst_setst_o getst_setst_o' getmq_setst getmr_setst gacc_setst gdone_setst : bis.
+#[export] Hint Rewrite getp_setgacc net_setgacc getmq_setgacc getmr_setgacc getst_setgacc gacc_setgacc gacc_setgacc_o gdone_setgacc : bis.
+#[export] Hint Rewrite getp_setgdone net_setgdone getmq_setgdone getmr_setgdone getst_setgdone gdone_setgdone gdone_setgdone_o gacc_setgdone : bis.
+Ltac simp_s := unfold Sc, Pc in *; autorewrite with bis in *.
 Ltac toks_same := solve [unfold toks1, toks2, toks3; simp_s; cbn; reflexivity].
 Ltac kindsW HK := destruct HK; constructor; simp_s; cbn; unfold KF in *; try assumption.
 
@@ -336,7 +328,7 @@ Lemma DRp w s k m : INVB s -> nth_error (net s) k = Some m -> msg_dst m = R w ->
 Proof.
   intros HB E Hdst. pose proof (dir cf s w HB) as Hd.
   destruct (cls_nth w _ _ _ (x_net _ _ (b_ex _ _ HB)) E) as [Ho|Ho].
-  - assert (Hk : isPQ m \/ isPR m) by (eapply (kf_nth w); [apply (k_net _ _ _ (d_K _ _ _ Hd))|exact E|exact Ho]).
+  - assert (Hk : isPQ m \/ isPR m) by (eapply (kf_nth w (fun m => isPQ m \/ isPR m)); [apply (k_net _ _ _ (d_K _ _ _ Hd))|exact E|exact Ho]).
     assert (Hin : In m (T1 w s)).
     { unfold toks1. repeat rewrite in_app_iff. right; right; left. unfold fo. apply filter_In. split; auto.
       eapply nth_error_In; eauto. }
@@ -361,7 +353,7 @@ Lemma DRs w s k m : INVB s -> nth_error (net s) k = Some m -> msg_dst m = R (oth
 Proof.
   intros HB E Hdst. pose proof (dir cf s w HB) as Hd.
   destruct (cls_nth w _ _ _ (x_net _ _ (b_ex _ _ HB)) E) as [Ho|Ho].
-  - assert (Hk : isPQ m \/ isPR m) by (eapply (kf_nth w); [apply (k_net _ _ _ (d_K _ _ _ Hd))|exact E|exact Ho]).
+  - assert (Hk : isPQ m \/ isPR m) by (eapply (kf_nth w (fun m => isPQ m \/ isPR m)); [apply (k_net _ _ _ (d_K _ _ _ Hd))|exact E|exact Ho]).
     assert (Hin : In m (T1 w s)).
     { unfold toks1. repeat rewrite in_app_iff. right; right; left. unfold fo. apply filter_In. split; auto.
       eapply nth_error_In; eauto. }
